@@ -106,15 +106,32 @@ func CheckC03(p *Pkg, e *Env, r *res.Result) {
 		paths = append(paths, "")
 	}
 	ctx := context.Background()
+	reqIdx := 0
 	for _, pf := range prefixes {
 		for _, rel := range paths {
 			if pf.v+rel == "" {
 				continue
 			}
 			path := pf.v + rel
-			for _, m := range methods {
+			for mi, m := range methods {
 				req := httptest.NewRequest(m, "http://h.example"+escapeForURL(path), nil).WithContext(ctx)
 				req.URL.Path = path
+				// every fifth request travels in a percent-encoded spelling (one letter of the
+				// path written as %XX): the wire form differs, the path and hence the routing
+				// outcome are the same
+				encoded := ""
+				reqIdx++
+				if reqIdx%5 == mi {
+					if tw := percentEncodedTwin(path, reqIdx); tw != "" {
+						req.URL.RawPath = tw
+						if req.URL.EscapedPath() == tw {
+							encoded = tw
+							r.Label("request:percent-encoded-spelling")
+						} else {
+							req.URL.RawPath = ""
+						}
+					}
+				}
 				in.Reset()
 				nfBefore := nfHits
 				mwRuns, seenTpl, seenOK = 0, "", false
@@ -164,6 +181,9 @@ func CheckC03(p *Pkg, e *Env, r *res.Result) {
 					r.Label("ref:notfound")
 				}
 				if fail != "" {
+					if encoded != "" {
+						fail += " [request sent in the percent-encoded spelling " + encoded + "]"
+					}
 					f := res.Failure{Property: "C03", Kind: routeKind(want, gotTpl, path, base), Clause: "routing",
 						Detail: fmt.Sprintf("templates %v base %q (form %v): %s %s: %s", templatesOf(p), base, p.Meta["baseform"], m, path, fail),
 						Replay: p.SpecReplay(map[string]any{"request.txt": m + " " + path})}
@@ -176,6 +196,22 @@ func CheckC03(p *Pkg, e *Env, r *res.Result) {
 	}
 	r.Label("baseform:" + fmt.Sprint(p.Meta["baseform"]))
 	r.Sample(map[string]any{"templates": templatesOf(p), "base_path": base, "baseform": p.Meta["baseform"], "requests": len(paths) * len(methods) * len(prefixes), "custom_not_found": customNF}, 6)
+}
+
+// percentEncodedTwin spells one letter of path as %XX (chosen by n); "" when the
+// path has no letter.
+func percentEncodedTwin(path string, n int) string {
+	var idx []int
+	for i := 0; i < len(path); i++ {
+		if c := path[i]; c >= 'a' && c <= 'z' || c >= 'A' && c <= 'Z' || c >= '0' && c <= '9' {
+			idx = append(idx, i)
+		}
+	}
+	if len(idx) == 0 {
+		return ""
+	}
+	i := idx[n%len(idx)]
+	return escapeForURL(path[:i]) + fmt.Sprintf("%%%02X", path[i]) + escapeForURL(path[i+1:])
 }
 
 func relMatchesSomething(p *Pkg, rel string) bool {
